@@ -56,7 +56,7 @@ def shard(i, n, tier, seed, rec, hb):
     pvl = common.import_pvl()
     c01.shard(i, n, tier, seed, rec, hb, check=CHECK,
               reader_of=lambda d: "default-noargs")
-    per = 2000 if tier == "quick" else 40000
+    per = 2000 if tier == "quick" else 200000
     for j in range(i, per, n):
         hb.beat()
         key = f"C02-noargs-{seed}-{j}"
